@@ -33,6 +33,11 @@ def match_finding(f, prop, v):
     return True
 
 
+# properties that are also judged on the executions recorded from the repository's own test-suite (harness/repotests.py)
+RECORDED = {"C01": ("Trace_C01", ["C01."]), "C06": ("Trace_C01", ["C06."]), "C03": ("Trace_Shadow", ["C03."]),
+            "C11": ("Trace_Shadow", ["C11."]), "C05": ("Trace_C05", ["C05."]), "C08": ("Trace_C08", ["C08."])}
+
+
 def main(argv=None):
     ap = argparse.ArgumentParser()
     ap.add_argument("prop")
@@ -46,12 +51,22 @@ def main(argv=None):
     try:
         mod = importlib.import_module(f"harness.{prop.lower()}")
         if a.replay:
-            rc = mod.replay(a.replay)
+            with open(a.replay) as f:
+                rcase = json.load(f).get("case") or {}
+            if rcase.get("recorded"):
+                from harness import repotests
+                rc = repotests.replay_recorded(rcase)
+            else:
+                rc = mod.replay(a.replay)
             core.cleanup()
             return rc
         for tm in getattr(mod, "TRACE_MODULES", []):
             core.preflight(tm)
         res = mod.run(a.tier, a.seed)
+        if prop in RECORDED:
+            from harness import repotests
+            core.preflight(RECORDED[prop][0])
+            res = repotests.merge(res, *repotests.judge(prop, *RECORDED[prop]))
     except core.MachineryError as ex:
         print(f"MACHINERY-FAILURE property={prop}: {ex}", file=sys.stderr)
         core.cleanup()
